@@ -62,6 +62,20 @@ int snoopy_cli_action_disable ()
     // Check for duplicate active libsnoopy.so
     foundStringPos1 = etcLdSoPreload_findNonCommentLineContainingString(curEtcLdSoPreloadContent, SNOOPY_SO_LIBRARY_NAME);
     if (foundStringPos1 != NULL) {
+        // Entries may share a line: count the mentions in the active (non-comment) part of this line, too
+        const char * activeEndPtr = foundStringPos1 + strcspn(foundStringPos1, "#\n");
+        const char * mentionPtr   = strstr(foundStringPos1, SNOOPY_SO_LIBRARY_NAME);
+        int          mentionCount = 0;
+        while ((mentionPtr != NULL) && (mentionPtr < activeEndPtr)) {
+            mentionCount++;
+            mentionPtr = strstr(mentionPtr + strlen(SNOOPY_SO_LIBRARY_NAME), SNOOPY_SO_LIBRARY_NAME);
+        }
+        if (mentionCount > 1) {
+            printDiagValue("Search string", SNOOPY_SO_LIBRARY_NAME);
+            printDiagValue("ld.so.preload path", g_etcLdSoPreloadPath);
+            fatalError("Duplicate libsnoopy.so entry encountered");
+        }
+
         foundStringPos2 = etcLdSoPreload_findNonCommentLineContainingString(foundStringPos1 + snoopy_util_string_getLineLength(foundStringPos1), SNOOPY_SO_LIBRARY_NAME);
         if (foundStringPos2 != NULL) {
             printDiagValue("Search string", SNOOPY_SO_LIBRARY_NAME);
@@ -92,7 +106,7 @@ int snoopy_cli_action_disable ()
     copyLength = (unsigned int) (entryPtr - srcPosPtr);
     strncpy(destPosPtr, srcPosPtr, copyLength);
 
-    // Skip the entry line we're removing, copy the rest
+    // Skip the entry we're removing, copy the rest
     destPosPtr = newEtcLdSoPreloadContent + copyLength;
     entryLine  = snoopy_util_string_copyLineFromContent(entryPtr);
     srcPosPtr  = entryPtr + strlen(libsnoopySoPath);
@@ -100,13 +114,22 @@ int snoopy_cli_action_disable ()
         srcPosPtr++;
     }
     if ((*srcPosPtr == '\0') || (*srcPosPtr == '\n') || (*srcPosPtr == '#')) {
-        // Our entry is alone on its line (possibly followed by a comment): remove the whole line
-        srcPosPtr = entryPtr + strlen(entryLine);
-        if (*srcPosPtr == '\n') {
-            srcPosPtr++;
+        // Nothing (but possibly a comment) follows our entry on its line: the blanks in front of it go, too
+        while ((destPosPtr > newEtcLdSoPreloadContent) && ((destPosPtr[-1] == ' ') || (destPosPtr[-1] == '\t'))) {
+            destPosPtr--;
+        }
+        if ((destPosPtr == newEtcLdSoPreloadContent) || (destPosPtr[-1] == '\n')) {
+            // Our entry is alone on its line (possibly followed by a comment): remove the whole line
+            srcPosPtr = entryPtr + strlen(entryLine);
+            if (*srcPosPtr == '\n') {
+                srcPosPtr++;
+            }
+        } else {
+            // Other libraries precede our entry on its line: keep them and whatever follows our entry (a comment, the newline)
+            srcPosPtr = entryPtr + strlen(libsnoopySoPath);
         }
     }
-    // Otherwise other libraries share the line with our entry: remove only our entry (and the whitespace that follows it)
+    // Otherwise other libraries follow our entry on its line: remove only our entry (and the whitespace that follows it)
     copyLength = (unsigned int) strlen(srcPosPtr);
     strncpy(destPosPtr, srcPosPtr, copyLength);
 
